@@ -32,7 +32,7 @@ static const char *const PROBE_NAMES[PR__COUNT] = {
     "throw_with_heap_target", "throw_with_heap_rvalue_argument", "object_reused_after_throw",
     "fault_in_allocate_after_release", "fault_in_vector_growth", "fault_while_constructing_exception",
     "target_empty_after_fault", "target_old_value_after_fault", "fault_in_stream_growth", "fault_in_std_function", "stream_topped_up_before_append",
-    "storage_retained_by_static_or_thread_local_object_after_teardown", "step_executed_by_a_helper_thread", "operation_repeated_at_once_after_its_allocation_fault_fired",
+    "storage_retained_by_static_or_thread_local_object_after_teardown", "step_executed_by_a_helper_thread", "operation_repeated_at_once_after_its_allocation_fault_fired", "step_executed_from_a_destructor_during_stack_unwinding",
 };
 const char *probe_name(int i) { return (i >= 0 && i < PR__COUNT) ? PROBE_NAMES[i] : "?"; }
 const char *exc_name(int e) {
@@ -50,8 +50,8 @@ std::string plan_to_text(const Plan &p) {
                   p.k.fill_fresh, p.k.fill_freed, p.k.text_mix, p.k.strict);
     s += buf;
     for (const Op &o : p.ops) {
-        std::snprintf(buf, sizeof buf, "op %s t=%u a=%u b=%u c=%u d=%u fault=%u fa=%u fc=%u thr=%u\n", op_name(o.kind), o.t, o.a, o.b, o.c, o.d,
-                      o.fault, o.fa, o.fc, o.thr);
+        std::snprintf(buf, sizeof buf, "op %s t=%u a=%u b=%u c=%u d=%u fault=%u fa=%u fc=%u thr=%u uw=%u\n", op_name(o.kind), o.t, o.a, o.b, o.c, o.d,
+                      o.fault, o.fa, o.fc, o.thr, o.uw);
         s += buf;
     }
     return s;
@@ -102,6 +102,7 @@ bool plan_from_text(const std::string &text, Plan &p, std::string &err) {
             if (kv(l, "fa", v)) o.fa = (uint32_t)v;
             if (kv(l, "fc", v)) o.fc = (uint32_t)v;
             if (kv(l, "thr", v)) o.thr = (uint8_t)(v % 3);
+            if (kv(l, "uw", v)) o.uw = (uint8_t)(v & 1);
             p.ops.push_back(o);
         } else { err = "bad line: " + line; return false; }
     }
